@@ -158,20 +158,26 @@ TraceNext ==
   /\ LET e == Trace[l]
          a == e.act
          pre == IF a.a = "InitChain" THEN PreGenesis ELSE st
-         pred == Step(pre, a)
+         pred0 == Step(pre, a)
          realHalt == e.res.class = "halt"
-     IN IF realHalt \/ pred.halt # ""
+         \* the specification halts but the real node went on: report it and keep validating from the real state
+         pred == IF ~realHalt /\ pred0.halt # "" THEN [pred0 EXCEPT !.halt = ""] ELSE pred0
+     IN IF realHalt
         THEN \* a dead node: the partially written state is not compared; only whether both died
-             /\ st' = [pred EXCEPT !.halt = IF realHalt THEN "halted" ELSE ""]
-             /\ (IF realHalt # (pred.halt # "")
-                 THEN PrintT("DIV " \o ToJson([l |-> l, b |-> e.b, div |-> {"halt"}, bad |-> {}, note |-> pred.halt])) ELSE TRUE)
+             /\ st' = [pred EXCEPT !.halt = "halted"]
+             /\ (IF pred0.halt = ""
+                 THEN PrintT("DIV " \o ToJson([l |-> l, b |-> e.b, div |-> {"halt"}, bad |-> {}, note |-> pred0.halt])) ELSE TRUE)
         ELSE
           LET r == RealOf(e.post)
               post == Adopt(pred, r)
-              div0 == {f \in ObsFields : pred[f] # r[f]}
+              div0 == IF pred0.halt # "" THEN {} ELSE {f \in ObsFields : pred[f] # r[f]}
               div1 == IF a.a = "Tx" /\ pred.lastRes # e.res.class THEN {"lastRes"} ELSE {}
               div2 == IF a.a \in {"EndBlock", "InitChain"} /\ pred.lastUpd # PairSet(e.res.updates) THEN {"lastUpd"} ELSE {}
               div3 == IF a.a \in {"EndBlock", "InitChain"} /\ e.res.upddup THEN {"updDup"} ELSE {}
+              \* Tendermint's own ValidatorSet.UpdateWithChangeSet is the oracle for "can be applied"
+              \* (its refusal to end up with an EMPTY set is not among the conditions C05 lists)
+              tmbad == IF a.a \in {"EndBlock", "InitChain"} /\ e.res.tmerr # "" /\ e.res.tmerr # "applying the validator changes would result in empty set"
+                       THEN {"C05.TendermintAccepts"} ELSE {}
               div4 == IF e.post.anomalies > 0 THEN {"anomalies"} ELSE {}
               \* the Tendermint side follows the REAL updates
               post2 == IF a.a \in {"EndBlock", "InitChain"} /\ div2 # {}
@@ -183,10 +189,11 @@ TraceNext ==
                                             !.vs = IF a.a = "InitChain" THEN << pre.vs[1], set, set >>
                                                    ELSE << pre.vs[2], pre.vs[3], set >>]
                        ELSE post
-              div == div0 \cup div1 \cup div2 \cup div3 \cup div4
-              bad == Failed(StateProps(post2)) \cup Failed(ActionProps(pre, post2, a, e.res))
+              div5 == IF pred0.halt # "" THEN {"halt"} ELSE {}
+              div == div0 \cup div1 \cup div2 \cup div3 \cup div4 \cup div5
+              bad == Failed(StateProps(post2)) \cup Failed(ActionProps(pre, post2, a, e.res)) \cup tmbad
           IN /\ st' = post2
-             /\ (IF div # {} \/ bad # {} THEN PrintT("DIV " \o ToJson([l |-> l, b |-> e.b, div |-> div, bad |-> bad, note |-> ""])) ELSE TRUE)
+             /\ (IF div # {} \/ bad # {} THEN PrintT("DIV " \o ToJson([l |-> l, b |-> e.b, div |-> div, bad |-> bad, note |-> pred0.halt])) ELSE TRUE)
 
 TraceSpec == TraceInit /\ [][TraceNext]_<<st, l>>
 
